@@ -91,10 +91,16 @@ def run(ctx):
     # positive control: the wrapping forms the codecs rely on are present
     enc = P.fn("DeltaEncoding::encode_signed")
     decs = P.fn("DeltaEncoding::decode_signed")
-    for f, nm in ((enc, "wrapping_sub"), (decs, "wrapping_add")):
-        ok = any(callee_name(t).endswith("::" + nm) for g in P.family(f) for bi, t in g.calls())
-        ctx.ob("R1", "%s#%s" % (short_id(f.id), nm), ok,
-               what="%s does not compute its deltas with %s" % (short_id(f.id), nm), where=f.loc())
+    # anchor control (not a verdict): the delta codec still computes differences / sums in a form R1 judges - a
+    # non-trapping method, or a trapping operator that r1() above has inspected
+    for f, op, trap in ((enc, "sub", "Sub"), (decs, "add", "Add")):
+        forms = tuple("::" + pre + op for pre in ("wrapping_", "overflowing_", "checked_", "saturating_"))
+        fam = list(P.family(f))
+        ok = any(callee_name(t).endswith(forms) for g in fam for bi, t in g.calls()) or \
+            any(tr["kind"].endswith(trap) for g in fam for tr in arith_traps(g, ("i64", "u64")))
+        if not ok:
+            raise CheckerError("C15-R1: %s no longer computes a difference/sum in any form the rule knows: anchor lost" % short_id(f.id))
+        ctx.ob("R1", "%s#%s" % (short_id(f.id), op), True, what="delta %s is computed in a form R1 judges" % op, where=f.loc())
 
     # ---- R4 parallel arrays stay parallel: a chunk stores destination ids and edge ids in two arrays whose i-th
     # entries belong together. If compress() reorders (sorts) anything on the way, both codec inputs must come out of
